@@ -409,10 +409,18 @@ func pubsubCase(c *fw.Ctx, idx int) {
 	// CRDT peers are connected only after all of them run: bitswap learns about peers
 	// from connection events, and an early dial (the cluster bootstraps to every peer in
 	// its peerstore) would precede the other side's bitswap
+	// relay variant: the replica under test trusts the control replica (which trusts the
+	// publisher and never re-announces anything itself: rebroadcast once an hour) and
+	// has no direct connection to the publisher, so the publisher's signed message only
+	// reaches it relayed by a peer it trusts. The signer decides, not the last hop.
+	relay := (idx/6)%2 == 1
 	start := func(p *sim.NetPeer, trust []peer.ID, all bool) bool {
 		err := sim.StartPeer(ctx, p, sim.NetOpts{Consensus: "crdt", CrdtTune: func(cfg *crdt.Config) {
 			cfg.TrustAll = all
 			cfg.TrustedPeers = trust
+			if relay && p == C {
+				cfg.RebroadcastInterval = time.Hour // the relaying replica announces nothing itself
+			}
 		}})
 		if err != nil {
 			c.Inconclusive("start: " + err.Error())
@@ -428,10 +436,18 @@ func pubsubCase(c *fw.Ctx, idx int) {
 		return
 	}
 	defer C.Node.Close()
-	if !start(B, nil, false) { // B trusts nobody (neither U nor C)
+	var bTrust []peer.ID // B trusts nobody (neither U nor C) ...
+	if relay {
+		bTrust = []peer.ID{C.ID} // ... or the relaying control replica only
+	}
+	if !start(B, bTrust, false) {
 		return
 	}
 	defer B.Node.Close()
+	if relay {
+		B.Gater.Block(U.ID)
+		U.Gater.Block(B.ID)
+	}
 	sim.ConnectAll(ctx, hosts)
 	round := 700 * time.Millisecond // two rebroadcast intervals of 300 ms and change
 	pinAt := func(p *sim.NetPeer, i int) (cid.Cid, bool) {
@@ -453,6 +469,14 @@ func pubsubCase(c *fw.Ctx, idx int) {
 		return
 	}
 	time.Sleep(round)
+	if relay {
+		time.Sleep(2 * time.Second)
+		c.Eval("pubsub/untrusted-update-relayed-by-trusted-peer-ignored")
+		if hasPin(ctx, B, x) {
+			c.Violation("C07/pubsub/untrusted-update-applied/relayed-by-trusted-peer", "a replica applied a pin published (signed) by a peer it does not trust because the message reached it through a peer it trusts", nil)
+		}
+		return
+	}
 	c.Eval("pubsub/untrusted-update-ignored")
 	if hasPin(ctx, B, x) {
 		c.Violation("C07/pubsub/untrusted-update-applied", "a replica applied a pin published by a peer it does not trust (the control replica that trusts it got it too)", nil)
